@@ -170,6 +170,11 @@ def judge_groups(ctx, groups, clause_filter, site_of=None, tags_of=None, trace_m
                 continue                      # Reset leaves most state UNKNOWN: only the range canary applies
             if kind == 'priv' and c['act']['n'] not in ('Step', 'Exec') and not v['path'].startswith(('memapi', 'exc', 'psrapi')):
                 continue                      # no clause of this verdict path looks at privileged state
+            if kind == 'attr':
+                if v['path'].endswith(':attrs'):
+                    ctx.canary('attr.ty' in v['v'])
+                    ctx.extra['attr_canaries'] = ctx.extra.get('attr_canaries', 0) + 1
+                continue
             if kind == 'priv':
                 ctx.canary('confine' in v['v'] or 'range' in v['v'] or 'hosterror' in v['v'] or
                            (v['path'].startswith(('memapi', 'exc', 'psrapi', 'exact')) and bool(v['v'])))
@@ -243,6 +248,10 @@ def corrupt(e, rnd, new_id, base):
     pre_cpsr = c['pre'].get('cpsr') or base['cpsr']
     post_cpsr = d.get('cpsr') or pre_cpsr
     kinds = ['reg', 'flag', 'range']
+    if 'attrs' in c and c['out'] == 'completed' and rnd.random() < 0.5:
+        # Translate events: a wrong memory type in the returned descriptor must be rejected wherever the spec claims it
+        c['attrs']['ty'] = {'NORMAL': 'SO', 'SO': 'DEV', 'DEV': 'NORMAL'}.get(c['attrs']['ty'], 'SO')
+        return c, 'attr'
     if pre_cpsr[1] & 31 == 16 and post_cpsr[1] & 31 == 16 and pre_cpsr[0] >= 0:
         kinds = ['priv', 'priv', 'reg', 'flag', 'range']
     kind = rnd.choice(kinds)
